@@ -56,6 +56,15 @@ fn main() {
                 _ => 2,
             }
         }
+        Some("derive-probe") => {
+            // the alphabet derivation and the self-checks, announcing every probe (see driver)
+            space::etok::TRACE_PROBES.store(true, std::sync::atomic::Ordering::Relaxed);
+            core::install_panic_hook();
+            let _ = space::etok::derive(true);
+            let _ = space::etok::derive(false);
+            println!("DONE");
+            0
+        }
         Some("replay") if args.len() >= 3 => driver::replay_file(&args[2]),
         Some("list") => {
             for p in props::ALL {
